@@ -178,6 +178,8 @@ class Comp:
         for i, g in enumerate(groups[1:]):
             if g.leading_count() and self.seps[i] == '':
                 self.seps[i] = ' '      # "H2" "3O" must not read as "H23O"
+            if isinstance(groups[i], Impl) and groups[i].count is not None and isinstance(g, Impl) and self.seps[i] == '':
+                self.seps[i] = ' '      # "3H2" "O" with no separator is textually one group "3H2O"
 
     def render(self):
         s = self.groups[0].render()
